@@ -268,6 +268,26 @@ func (c *Ctx) Callees(cc *ssa.CallCommon) []*ssa.Function {
 			return []*ssa.Function{f}
 		}
 	}
+	// function values of a named module func type (functional options): every function literal whose
+	// enclosing function returns that named type
+	if nt, ok := cc.Value.Type().(*types.Named); ok {
+		if _, isSig := nt.Underlying().(*types.Signature); isSig && nt.Obj().Pkg() != nil && strings.HasPrefix(nt.Obj().Pkg().Path(), modPath) {
+			var out []*ssa.Function
+			for _, f := range c.Funcs {
+				par := f.Parent()
+				if par == nil {
+					continue
+				}
+				res := par.Signature.Results()
+				for i := 0; i < res.Len(); i++ {
+					if types.Identical(res.At(i).Type(), nt) {
+						out = append(out, f)
+					}
+				}
+			}
+			return out
+		}
+	}
 	return nil
 }
 
